@@ -142,7 +142,7 @@ fn limb_case(t: &mut Tape, c: &mut Case) -> CaseResult {
     Ok(())
 }
 
-fn uint_case<const N: usize>(t: &mut Tape, c: &mut Case) -> CaseResult {
+pub(crate) fn uint_case<const N: usize>(t: &mut Tape, c: &mut Case) -> CaseResult {
     let al = operand(t, N);
     let w = gen::word(t);
     c.limbs("a", &al);
